@@ -2095,8 +2095,11 @@ class QuicConnection:
                 self._quic_logger.encode_path_response_frame(data=data)
             )
 
+        # Keep the challenge (the dict is bounded by MAX_LOCAL_CHALLENGES) so that
+        # a duplicated or retransmitted PATH_RESPONSE still matches a challenge
+        # we sent instead of closing the connection.
         try:
-            network_path = self._local_challenges.pop(data)
+            network_path = self._local_challenges[data]
         except KeyError:
             raise QuicConnectionError(
                 error_code=QuicErrorCode.PROTOCOL_VIOLATION,
